@@ -219,7 +219,7 @@ PROPS = {
              "model side merely predicts the item count. Trusted: Lean kernel, harness, counting allocator.",
         assumptions=["chunk >= 1", "honest source"]),
     "C06": dict(
-        module="Flussab.Props.C06", modules=["Flussab.Props.C06", "Flussab.Props.C06Aiger"], engines=[("aiger", 4000, 150000, "rt+layout+mutate+huge+corrupt"), ("cnf", 6000, 200000, "layout+rt+mutate+arbitrary+corrupt+corrupt+log+logmut")],
+        module="Flussab.Props.C06", modules=["Flussab.Props.C06", "Flussab.Props.C06Cnf", "Flussab.Props.C06Aiger"], engines=[("aiger", 4000, 150000, "rt+layout+mutate+huge+corrupt"), ("cnf", 6000, 200000, "layout+rt+mutate+arbitrary+corrupt+corrupt+log+logmut")],
         bv_decide_theorems=[],
         claim="Numbers: every number token is produced by the decimal scanners, which return the exact decimal value "
               "of the digit run or None (C13) - restated at token level (unsigned_token_exact, signed_token_exact: a "
@@ -231,9 +231,10 @@ PROPS = {
               "recomputed from the header, for all 5 literal types and both ignore_header settings.",
         note="AIGER limits are theorems (Props/C06Aiger.lean: aag/aig_header_sane, aiger_lit_within, *_latch_within, "
              "aag_gate_within, aig_delta_le_code, aiger_section_exhausted/count, aag/aig_parse_sizes, "
-             "aiger_justice_sizes, aiger_symbol_index_within, aig_varint_exact). DIMACS limits: cnf_parsed_is_wf "
-             "(Props/C03Cnf.lean: whatever parseAll accepts satisfies WF = literals within limits, declared counts "
-             "met, groups within the group count). Trusted: Lean kernel, harness, the independent reference lexer.",
+             "aiger_justice_sizes, aiger_symbol_index_within, aig_varint_exact). DIMACS limits are theorems "
+             "(Props/C06Cnf.lean: cnf_lits_within, cnf_clean_end_count, gcnf_group_within, cnf_header_within, for "
+             "every accepted byte string, corollaries of cnf_parsed_is_wf). BTOR2 has no declared limits beyond "
+             "number exactness. Trusted: Lean kernel, harness, the independent reference lexer.",
         assumptions=["64-bit usize/isize"]),
     "C03": dict(
         module="Flussab.Props.C03Cnf", modules=["Flussab.Props.C03Aiger", "Flussab.Props.C03Cnf", "Flussab.Props.C03Btor2"],
